@@ -287,7 +287,7 @@ impl Scenario for C11Threads {
             cfg.real_components = true;
             cfg.recursion_bias = w.chance(1, 3);
             cfg.warnful = w.chance(1, 3);
-            if w.chance(1, 3) {
+            if w.chance(1, 2) {
                 // import-heavy sets: many values governed by named types of other modules
                 cfg.value_import_bias = true;
                 cfg.modules = (3, 5);
